@@ -36,6 +36,15 @@ CONTRACTS['Interstitial.diffusivity'] = dict(
     returns=[[ONE], [ONE, ONE]],
     assumed=['bias_solver(omega, b) = omega^-1 b or pinv(omega) b: degree 0 for omega, b of degree 1 (its definition in __init__ is checked: relative cutoff only)'])
 
+CONTRACTS['Interstitial.losstensors'] = dict(
+    relpath='onsager/OnsagerCalc.py', qualname='Interstitial.losstensors',
+    params={'self': NA, 'pre': ZEROD, 'betaene': ZEROD, 'dipole': ZEROD, 'preT': ONE, 'betaeneT': ZEROD},
+    callees={'self.siteprob': ZEROD, 'self.ratelist': ONE, 'self.symmratelist': ONE, 'self.siteDipoles': ZEROD,
+             'tensor_square': lambda ds: ds[0] if not isinstance(ds[0], Fr) else 2 * ds[0]},
+    globals={'itertools': NA},
+    returns=None,
+    assumed=['the local helper tensor_square(a) is the outer product a (x) a (degree doubled); the mode rates appended to the result carry degree 1 and the loss tensors degree 0 (statement obligations on the loop body)'])
+
 from vf.pyframe.degree import LOG
 FE = LOG(-1)        # a scaled transition-state free energy: every rate x lambda shifts it by -ln(lambda)
 
